@@ -116,7 +116,11 @@ func (g *gen) Generate(typs []types.Type) error {
 	p.P("return %s {", gStr)
 	p.In()
 	as := varnames(ftyp.Params())
-	p.P("return f(%s)", strings.Join(as, ", "))
+	if ftyp.Results().Len() == 0 {
+		p.P("f(%s)", strings.Join(as, ", "))
+	} else {
+		p.P("return f(%s)", strings.Join(as, ", "))
+	}
 	p.Out()
 	p.P("}")
 	p.Out()
